@@ -1,6 +1,6 @@
 /-
   C24 — pure `Nat` arithmetic of the EncDec wavefront segment geometry
-  (`enc_dec_segments_init`, Source/Lib/Encoder/Codec/EbEncDecSegments.c:63-163 and the macros
+  (`enc_dec_segments_init`, Source/Lib/Encoder/Codec/EbEncDecSegments.c:72-168 and the macros
   ROW_INDEX / BAND_INDEX / SEGMENT_INDEX of EbEncDecSegments.h:33-40).
 
   Parameters: `W H` picture size in SBs, `Cc Rr` the clamped segment column / row counts
@@ -22,7 +22,7 @@ namespace Seg
 def rowOf (Rr H y : Nat) : Nat := y * Rr / H
 /-- `BAND_INDEX` with `s = x + y` -/
 def bandOf (B T s : Nat) : Nat := s * B / T
-/-- first SB row of segment row `r` (`ceil (r*H/Rr)`), as in init's row loop (line 120) -/
+/-- first SB row of segment row `r` (`ceil (r*H/Rr)`), as in init's row loop (line 125) -/
 def y0 (Rr H r : Nat) : Nat := (r * H + (Rr - 1)) / Rr
 /-- segment band count `BAND_TOTAL_COUNT(Rr, Cc)` -/
 def segB (Rr Cc : Nat) : Nat := Rr + Cc - 1
@@ -244,7 +244,9 @@ theorem cen_add_le_cen_succ (hR : 0 < Rr) (r : Nat) :
   unfold cen
   rw [Nat.add_mul, Nat.one_mul]; omega
 
-/-! ### the negative: a one-SB-wide picture (`W = 1`, hence `Cc = 1`, `B = Rr`, `T = H`) -/
+/-! ### the negative: a one-SB-wide picture (`W = 1`, hence `Cc = 1`, `B = Rr`, `T = H`) with `Rr` segment rows.
+  This is the geometry `enc_dec_segments_init` produced before the clamp of EbEncDecSegments.c:83; since the clamp
+  the code only ever uses `Rr = 1` here (`effR_W1`), for which these lemmas say nothing harmful. -/
 
 theorem startBand_W1 (hR : 0 < Rr) (hRH : Rr ≤ H) (r : Nat) :
     startBand 1 H 1 Rr r = r := by
@@ -274,9 +276,9 @@ theorem no_bottom_edge_W1 (hR : 0 < Rr) (hRH : Rr ≤ H) (r : Nat) :
 
 /-! ## Milestone 3: the dependency edges counted by `enc_dec_segments_init` cover the SB neighbours -/
 
-/-- The edge relation whose in-degrees the init code (lines 141-160) stores in `dependency_map`:
-    a *right* edge `s → s+1` for every `s` of a row `r` with `s < ending(r)` (line 150), and a
-    *bottom* edge `s → s+B` for every `s` of a row `r < Rr-1` with `s + B ≥ starting(r+1)` (line 154). -/
+/-- The edge relation whose in-degrees the init code (lines 146-165) stores in `dependency_map`:
+    a *right* edge `s → s+1` for every `s` of a row `r` with `s < ending(r)` (line 155), and a
+    *bottom* edge `s → s+B` for every `s` of a row `r < Rr-1` with `s + B ≥ starting(r+1)` (line 159). -/
 def cEdge (W H Cc Rr s t : Nat) : Prop :=
   (t = s + 1 ∧ ∃ r, r < Rr ∧ cst W H Cc Rr r ≤ s ∧ s < cen W H Cc Rr r) ∨
   (t = s + segB Rr Cc ∧ ∃ r, r + 1 < Rr ∧ cst W H Cc Rr r ≤ s ∧ s ≤ cen W H Cc Rr r ∧
@@ -397,7 +399,8 @@ theorem seg_deps_topright (hR : 1 ≤ Rr) (hRH : Rr ≤ H) (hw : 2 ≤ W ∨ Rr 
     through the right / bottom edges that `enc_dec_segments_init` counts in `dependency_map` —
     so `assign_enc_dec_segments` cannot hand out `(x,y)`'s segment before `(x',y')`'s is finished.
     Hypothesis `2 ≤ W ∨ Rr = 1`: for a one-SB-wide picture with more than one segment row the
-    statement is FALSE (`no_cEdge_W1` below: there are no edges at all). -/
+    statement is FALSE (`no_cEdge_W1` below: there are no edges at all).  The effective row count of the
+    init code satisfies it for every input (`effR_live`, thanks to the clamp of line 83). -/
 theorem seg_deps_sound (hR : 1 ≤ Rr) (hRH : Rr ≤ H) (hw : 2 ≤ W ∨ Rr = 1) {x y x' y' : Nat}
     (hx : x < W) (hy : y < H)
     (hn : (1 ≤ x ∧ x' = x - 1 ∧ y' = y) ∨ (1 ≤ y ∧ x' = x ∧ y' = y - 1) ∨
@@ -478,7 +481,7 @@ variable {W H Cc Rr : Nat}
 theorem segB_le_mul (hR : 1 ≤ Rr) : segB Rr Cc ≤ Rr * segB Rr Cc :=
   Nat.le_mul_of_pos_left _ hR
 
-/-- `sbSeg` (the init loop's per-SB segment index, lines 96-101) is `cseg` -/
+/-- `sbSeg` (the init loop's per-SB segment index, lines 101-106) is `cseg` -/
 theorem sbSeg_eq (hW : W ≤ 4096) (hH : H ≤ 4096) (hC : 1 ≤ Cc) (hR : 1 ≤ Rr) (hRH : Rr ≤ H)
     (hN : Rr * segB Rr Cc < 65536) {x y : Nat} (hx : x < W) (hy : y < H) :
     sbSeg (segB Rr Cc) (sbT W H) Rr H (x, y) = cseg W H Cc Rr x y := by
@@ -499,7 +502,7 @@ theorem mkRow_y_eq (hH : H ≤ 4096) (hR : 1 ≤ Rr) (hRH : Rr ≤ H) {r : Nat} 
   unfold y0
   rw [sub32_pred hR (by omega), u32_of_lt (show r * H < 4294967296 by omega), u32_of_lt (by omega)]
 
-/-- the row controls computed by the init row loop (lines 117-138) are the closed forms -/
+/-- the row controls computed by the init row loop (lines 122-143) are the closed forms -/
 theorem mkRow_eq (hW1 : 1 ≤ W) (hW : W ≤ 4096) (hH : H ≤ 4096) (hC : 1 ≤ Cc) (hR : 1 ≤ Rr)
     (hRH : Rr ≤ H) (hN : Rr * segB Rr Cc < 65536) {r : Nat} (hr : r < Rr) :
     mkRow W H Rr (segB Rr Cc) (sbT W H) r =
@@ -538,23 +541,51 @@ end
 theorem ite_lt_eq_min (a b : Nat) : (if a < b then a else b) = min a b := by
   split <;> omega
 
+/-- the effective segment row count after the clamps of `enc_dec_segments_init`: `min(R, H, max rows)`
+    (lines 75-78), and 1 for a picture / tile group one SB wide (line 83). -/
+def effR (W H R MR : Nat) : Nat := if W = 1 then 1 else min (min R H) MR
+
+theorem effR_pos {W H R MR : Nat} (hH : 1 ≤ H) (hR : 1 ≤ R) (hMR : 1 ≤ MR) : 1 ≤ effR W H R MR := by
+  unfold effR; split <;> omega
+
+theorem effR_le_H {W H R MR : Nat} (hH : 1 ≤ H) : effR W H R MR ≤ H := by
+  unfold effR; split <;> omega
+
+theorem effR_le_min (W H R MR : Nat) (hH : 1 ≤ H) (hR : 1 ≤ R) (hMR : 1 ≤ MR) :
+    effR W H R MR ≤ min (min R H) MR := by
+  unfold effR; split <;> omega
+
+theorem effR_le_4096 {W H R MR : Nat} (hH : H ≤ 4096) : effR W H R MR ≤ 4096 := by
+  unfold effR; split <;> omega
+
+theorem effR_W1 (H R MR : Nat) : effR 1 H R MR = 1 := by simp [effR]
+
+theorem effR_of_two_le {W : Nat} (hW : 2 ≤ W) (H R MR : Nat) : effR W H R MR = min (min R H) MR := by
+  unfold effR; rw [if_neg (by omega)]
+
+/-- with the clamp of line 83 the completion condition of the geometry lemmas always holds -/
+theorem effR_live {W : Nat} (hW1 : 1 ≤ W) (H R MR : Nat) : 2 ≤ W ∨ effR W H R MR = 1 := by
+  by_cases h : W = 1
+  · right; rw [h]; exact effR_W1 H R MR
+  · left; omega
+
 theorem initSeg_segRowCount_min (W H C R MC MR : Nat) :
-    (initSeg W H C R MC MR).segRowCount = min (min R H) MR := by
-  simp only [initSeg, ite_lt_eq_min]
+    (initSeg W H C R MC MR).segRowCount = effR W H R MR := by
+  simp only [initSeg, ite_lt_eq_min, effR]
 
 theorem initSeg_segBandCount_raw (W H C R MC MR : Nat) :
-    (initSeg W H C R MC MR).segBandCount = bandTotalCount (min (min R H) MR) (min C W) := by
-  simp only [initSeg, ite_lt_eq_min]
+    (initSeg W H C R MC MR).segBandCount = bandTotalCount (effR W H R MR) (min C W) := by
+  simp only [initSeg, ite_lt_eq_min, effR]
 
 theorem initSeg_sbBandCount_raw (W H C R MC MR : Nat) :
     (initSeg W H C R MC MR).sbBandCount = bandTotalCount H W := rfl
 
 theorem initSeg_rows_raw (W H C R MC MR : Nat) :
     (initSeg W H C R MC MR).rows =
-      ((List.range (min (min R H) MR)).map
-        (mkRow W H (min (min R H) MR) (bandTotalCount (min (min R H) MR) (min C W))
+      ((List.range (effR W H R MR)).map
+        (mkRow W H (effR W H R MR) (bandTotalCount (effR W H R MR) (min C W))
           (bandTotalCount H W))).toArray := by
-  simp only [initSeg, ite_lt_eq_min]
+  simp only [initSeg, ite_lt_eq_min, effR]
 
 theorem rowStart_map_range {n r : Nat} (f : Nat → SegRow) (h : r < n) :
     rowStart ((List.range n).map f).toArray r = (f r).starting := by
@@ -574,9 +605,10 @@ variable {W H C R MR : Nat}
 
 /-- Under the size bounds (`W, H ≤ 4096` SBs, `segment_ttl_count < 65536` so the `uint16_t`
     row indices do not wrap) `enc_dec_segments_init` computes exactly the closed forms, with
-    `Cc = min C W` (line 74) and `Rr = min (min R H) MR` (lines 75-78). -/
+    `Cc = min C W` (line 74) and `Rr = effR W H R MR` (lines 75-78, 83). -/
 theorem initSeg_segBandCount_closed (hW1 : 1 ≤ W) (hW : W ≤ 4096) (hH : H ≤ 4096) (hC : 1 ≤ C) (MC : Nat) :
-    (initSeg W H C R MC MR).segBandCount = segB (min (min R H) MR) (min C W) := by
+    (initSeg W H C R MC MR).segBandCount = segB (effR W H R MR) (min C W) := by
+  have hE := effR_le_4096 (W := W) (R := R) (MR := MR) hH
   rw [initSeg_segBandCount_raw, bandTotalCount_eq (by omega) (by omega)]; rfl
 
 theorem initSeg_sbBandCount_closed (hW1 : 1 ≤ W) (hW : W ≤ 4096) (hH : H ≤ 4096) (MC : Nat) :
@@ -584,49 +616,53 @@ theorem initSeg_sbBandCount_closed (hW1 : 1 ≤ W) (hW : W ≤ 4096) (hH : H ≤
   rw [initSeg_sbBandCount_raw, bandTotalCount_eq (by omega) (by omega)]; rfl
 
 theorem initSeg_segTtlCount_closed (hW1 : 1 ≤ W) (hW : W ≤ 4096) (hH : H ≤ 4096) (hC : 1 ≤ C) (MC : Nat)
-    (hN : min (min R H) MR * segB (min (min R H) MR) (min C W) < 65536) :
+    (hN : effR W H R MR * segB (effR W H R MR) (min C W) < 65536) :
     (initSeg W H C R MC MR).segTtlCount =
-      min (min R H) MR * segB (min (min R H) MR) (min C W) := by
+      effR W H R MR * segB (effR W H R MR) (min C W) := by
   have : (initSeg W H C R MC MR).segTtlCount =
-      u32 (min (min R H) MR * bandTotalCount (min (min R H) MR) (min C W)) := by
-    simp only [initSeg, ite_lt_eq_min]
+      u32 (effR W H R MR * bandTotalCount (effR W H R MR) (min C W)) := by
+    simp only [initSeg, ite_lt_eq_min, effR]
+  have hE := effR_le_4096 (W := W) (R := R) (MR := MR) hH
   rw [this, bandTotalCount_eq (by omega) (by omega)]
   exact u32_of_lt (by unfold segB at hN; omega)
 
 theorem initSeg_rows_size (MC : Nat) :
-    (initSeg W H C R MC MR).rows.size = min (min R H) MR := by
+    (initSeg W H C R MC MR).rows.size = effR W H R MR := by
   rw [initSeg_rows_raw]; simp
 
-theorem initSeg_row (hW1 : 1 ≤ W) (hW : W ≤ 4096) (hH : H ≤ 4096) (hC : 1 ≤ C) (MC : Nat)
-    (hN : min (min R H) MR * segB (min (min R H) MR) (min C W) < 65536)
-    {r : Nat} (hr : r < min (min R H) MR) :
+theorem initSeg_row (hW1 : 1 ≤ W) (hW : W ≤ 4096) (hH1 : 1 ≤ H) (hH : H ≤ 4096) (hC : 1 ≤ C) (MC : Nat)
+    (hN : effR W H R MR * segB (effR W H R MR) (min C W) < 65536)
+    {r : Nat} (hr : r < effR W H R MR) :
     (initSeg W H C R MC MR).rows.getD r default =
-      { starting := cst W H (min C W) (min (min R H) MR) r,
-        ending := cen W H (min C W) (min (min R H) MR) r,
-        current := cst W H (min C W) (min (min R H) MR) r } := by
+      { starting := cst W H (min C W) (effR W H R MR) r,
+        ending := cen W H (min C W) (effR W H R MR) r,
+        current := cst W H (min C W) (effR W H R MR) r } := by
+  have hE := effR_le_H (W := W) (R := R) (MR := MR) hH1
   rw [initSeg_rows_raw, getD_map_range _ hr, bandTotalCount_eq (by omega) (by omega),
     bandTotalCount_eq (by omega) (by omega)]
   exact mkRow_eq hW1 hW hH (by omega) (by omega) (by omega) hN hr
 
-theorem initSeg_rowStart (hW1 : 1 ≤ W) (hW : W ≤ 4096) (hH : H ≤ 4096) (hC : 1 ≤ C) (MC : Nat)
-    (hN : min (min R H) MR * segB (min (min R H) MR) (min C W) < 65536)
-    {r : Nat} (hr : r < min (min R H) MR) :
-    rowStart (initSeg W H C R MC MR).rows r = cst W H (min C W) (min (min R H) MR) r := by
-  unfold rowStart; rw [initSeg_row hW1 hW hH hC MC hN hr]
+theorem initSeg_rowStart (hW1 : 1 ≤ W) (hW : W ≤ 4096) (hH1 : 1 ≤ H) (hH : H ≤ 4096) (hC : 1 ≤ C) (MC : Nat)
+    (hN : effR W H R MR * segB (effR W H R MR) (min C W) < 65536)
+    {r : Nat} (hr : r < effR W H R MR) :
+    rowStart (initSeg W H C R MC MR).rows r = cst W H (min C W) (effR W H R MR) r := by
+  unfold rowStart; rw [initSeg_row hW1 hW hH1 hH hC MC hN hr]
 
-theorem initSeg_rowEnd (hW1 : 1 ≤ W) (hW : W ≤ 4096) (hH : H ≤ 4096) (hC : 1 ≤ C) (MC : Nat)
-    (hN : min (min R H) MR * segB (min (min R H) MR) (min C W) < 65536)
-    {r : Nat} (hr : r < min (min R H) MR) :
-    rowEnd (initSeg W H C R MC MR).rows r = cen W H (min C W) (min (min R H) MR) r := by
-  unfold rowEnd; rw [initSeg_row hW1 hW hH hC MC hN hr]
+theorem initSeg_rowEnd (hW1 : 1 ≤ W) (hW : W ≤ 4096) (hH1 : 1 ≤ H) (hH : H ≤ 4096) (hC : 1 ≤ C) (MC : Nat)
+    (hN : effR W H R MR * segB (effR W H R MR) (min C W) < 65536)
+    {r : Nat} (hr : r < effR W H R MR) :
+    rowEnd (initSeg W H C R MC MR).rows r = cen W H (min C W) (effR W H R MR) r := by
+  unfold rowEnd; rw [initSeg_row hW1 hW hH1 hH hC MC hN hr]
 
 /-- the per-SB segment index used by the init loop of `initSeg` is `cseg` -/
 theorem initSeg_sbSeg (hW1 : 1 ≤ W) (hW : W ≤ 4096) (hH : H ≤ 4096) (hC : 1 ≤ C)
     (hR : 1 ≤ R) (hMR : 1 ≤ MR)
-    (hN : min (min R H) MR * segB (min (min R H) MR) (min C W) < 65536)
+    (hN : effR W H R MR * segB (effR W H R MR) (min C W) < 65536)
     {x y : Nat} (hx : x < W) (hy : y < H) :
-    sbSeg (bandTotalCount (min (min R H) MR) (min C W)) (bandTotalCount H W) (min (min R H) MR) H (x, y)
-      = cseg W H (min C W) (min (min R H) MR) x y := by
+    sbSeg (bandTotalCount (effR W H R MR) (min C W)) (bandTotalCount H W) (effR W H R MR) H (x, y)
+      = cseg W H (min C W) (effR W H R MR) x y := by
+  have hE := effR_le_H (W := W) (R := R) (MR := MR) (show 1 ≤ H by omega)
+  have hE1 := effR_pos (W := W) (show 1 ≤ H by omega) hR hMR
   rw [bandTotalCount_eq (by omega) (by omega), bandTotalCount_eq (by omega) (by omega)]
   exact sbSeg_eq hW hH (by omega) (by omega) (by omega) hN hx hy
 
